@@ -109,7 +109,9 @@ def layout_cases(draw, tier):
     steps = draw(st.lists(st.tuples(st.sampled_from(names), st.booleans()), min_size=1, max_size=5))
     return {"cfg": cfg, "start": cfg.get("start") or draw(st.sampled_from(names)), "steps": [list(s) for s in steps],
             "eager": draw(st.booleans()), "setseed": draw(st.integers(0, 10 ** 6)), "schedule": draw(gen.schedules(16)),
-            "dtype": draw(st.sampled_from(["float64", "complex128"]))}
+            "dtype": draw(st.sampled_from(["float64", "complex128"])),
+            # the same walk through a Grid (setLayout lends its save block, when it has one, to the transpose)
+            "grid": draw(st.sampled_from([None, None, "plain", "save"]))}
 
 
 def _layout_rank(ctx, c):
@@ -126,6 +128,22 @@ def _layout_rank(ctx, c):
     cur = c["start"]
     l = man.getLayout(cur)
     src[:l.size] = ga.block(G, l.dims_order, l.starts, l.ends).ravel()
+    if c.get("grid"):
+        from pygyro.model.grid import Grid
+        shape = cfg["shape"]
+        grid = Grid(mg.eta_grids(shape), [None] * len(shape), man, cur, ctx.comm, dtype=dtype,
+                    allocateSaveMemory=(c["grid"] == "save"))
+        grid.getAllData()[:] = ga.block(G, l.dims_order, l.starts, l.ends)
+        for dn, _ in c["steps"]:
+            if dn != grid.currentLayout:
+                grid.setLayout(dn)
+            ld = man.getLayout(dn)
+            if not ga.bits_equal(grid.getAllData(), ga.block(G, ld.dims_order, ld.starts, ld.ends)):
+                raise Violation("C06:wrong-data", "Grid.setLayout(%s) left wrong data on rank %d" % (dn, ctx.rank))
+        digests = [route_digest(man)]
+        if cfg["kind"] == "swapper":
+            digests += [route_digest(m) for m in man._managers]
+        return ("ok", digests, len(ctx.trace))
     for dn, usebuf in c["steps"]:
         buf = np.zeros(bs, dtype=dtype) if usebuf else None
         man.transpose(src, dst, cur, dn, buf)
